@@ -87,6 +87,10 @@ type scanner struct {
 	lengthComputing bool
 
 	hasTrailingCharacters bool
+
+	// slashPending the first slash of an annotation was read, the second character
+	// of the opening is expected.
+	slashPending bool
 }
 
 func newScanner(file *fs.File, oo ...scannerOption) *scanner {
@@ -191,6 +195,13 @@ func (s *scanner) Next() (lexeme.LexEvent, error) {
 }
 
 func (s *scanner) processTail() (lexeme.LexEvent, error) {
+	if s.slashPending {
+		// The text ends right after the first slash of an annotation.
+		err := kit.NewJSchemaError(s.file, errs.ErrUnexpectedEOF.F())
+		err.SetIndex(s.dataSize - 1)
+		return lexeme.LexEvent{}, err
+	}
+
 	if s.stack.Len() == 0 {
 		return lexeme.LexEvent{}, errEOS
 	}
@@ -671,6 +682,7 @@ func (s *scanner) stateNul(c byte) (state, error) {
 }
 
 func (s *scanner) stateAnyAnnotationStart(c byte) (st state, err error) {
+	s.slashPending = false
 	switch c {
 	case '/':
 		s.annotation = true
@@ -823,5 +835,6 @@ func (s *scanner) switchToAnnotation() error {
 	}
 	s.returnToStep.Push(s.step)
 	s.step = s.stateAnyAnnotationStart
+	s.slashPending = true
 	return nil
 }
